@@ -886,14 +886,18 @@ func (w *streamWriter) Close() error {
 		}
 	}
 
+	// Take the deferred objects off the list before writing them: a deferred
+	// stream object is written through OpenStream, and closing that stream
+	// runs this code again.
 	w.parent.inStream = false
-	for _, pair := range w.parent.afterStream {
+	pending := w.parent.afterStream
+	w.parent.afterStream = nil
+	for _, pair := range pending {
 		err = w.parent.Put(pair.ref, pair.obj)
 		if err != nil {
 			return err
 		}
 	}
-	w.parent.afterStream = w.parent.afterStream[:0]
 
 	return nil
 }
